@@ -35,7 +35,9 @@ FOREIGN = [
     b"lorem ipsum " * 40,
 ]
 
-CALLERS = [None, ["git", "log", "-p"], ["git", "show"], ["git", "diff"]]
+CALLERS = [None, ["git", "log", "-p"], ["git", "show"], ["git", "diff"],
+           # revisions that contain a colon but name no file (`REV:path` would make the whole input a file's content)
+           ["git", "show", "--oneline", ":/fix typo"], ["git", "show", "-s", "HEAD@{2024-01-01 10:00:00}"]]
 # callers that enable blame / grep parsing: only lines outside the documented shapes
 SAFE_FOR_GREP_BLAME = [b"", b"On branch main", b"- item",
                        b"{not json", b"\x1b[31mred\x1b[m text", b"caf\xc3\xa9 \xe6\xbc\xa2",
